@@ -17,7 +17,7 @@ TARGETS = ["store_new", "store_dup_unref", "store_additional", "store_bytesio", 
            "tag_first_noobj", "delete_sole", "delete_shared", "delete_with_meta", "smeta_new",
            "smeta_overwrite", "dmeta_one", "dmeta_all", "store_rebind", "tag_rebind", "delete_listed_first",
            "delete_listed_middle",
-           "delete_refs_without_object"]
+           "delete_refs_without_object", "tag_shared_noobj", "store_joins_noobj"]
 
 
 def prerequisites(kind):
@@ -46,6 +46,9 @@ def prerequisites(kind):
         "tag_rebind": [{"op": "store", "pid": T, "c": 0}],
         # a partial reference state the public API itself creates: both reference files, no data object
         "delete_refs_without_object": [{"op": "tag", "pid": T, "cid": {"of": 0}}],
+        # a bystander was tagged to the cid BEFORE the upload (documented use): a reference list without a data object
+        "tag_shared_noobj": [{"op": "tag", "pid": O1, "cid": {"of": 0}}],
+        "store_joins_noobj": [{"op": "tag", "pid": O1, "cid": {"of": 0}}],
     }
     return pre[kind]
 
@@ -65,6 +68,8 @@ def target_op(kind, variant=0):
         "delete_listed_first": {"op": "delete", "pid": T},
         "delete_listed_middle": {"op": "delete", "pid": T},
         "delete_refs_without_object": {"op": "delete", "pid": T},
+        "tag_shared_noobj": {"op": "tag", "pid": T, "cid": {"of": 0}},
+        "store_joins_noobj": {"op": "store", "pid": T, "c": 0},
         "smeta_new": {"op": "smeta", "pid": T, "fmt": FMT, "d": 1},
         "smeta_overwrite": {"op": "smeta", "pid": T, "fmt": FMT, "d": 1},
         "dmeta_one": {"op": "dmeta", "pid": T, "fmt": FMT},
@@ -174,6 +179,9 @@ class Scenario:
             if key[1] == T:
                 continue
             if now[key] != v:
+                if key[0] == "obj" and v == ("err", "RefsFileExistsButCidObjMissing") and now[key][0] == "ok" and \
+                        self.alpha0["pidrefs"].get(cfg.H(key[1])) == cfg.digest(now[key][1]):
+                    continue   # tagged before the upload; somebody has uploaded the bytes of that cid since: legitimately served now
                 return ("served", f"{when}: {key[0]} of bystander {key[1]!r}"
                         f"{'' if key[0] == 'obj' else ' format ' + str(key[2])} was {_s(v)} and is now {_s(now[key])}")
         for p in (O1, O2):
